@@ -553,7 +553,9 @@ class TransactionResult:
             return {k: tuple(v) if isinstance(v,list) else v for k,v in item.items()}
 
         def packed_list2tuple(item:dict):
-            return {k: list(map(tuple,v)) if k != 'rewards' and isinstance(v[0],list) else v for k,v in item.items()}
+            #a column can mix lists with None (ragged rows) and with other values so we decide per value
+            is_list = lambda x: isinstance(x,list)
+            return {k: [tuple(x) if is_list(x) else x for x in v] if k != 'rewards' and any(map(is_list,v)) else v for k,v in item.items()}
 
         if version == 3:
             raise CobaException("Deprecated transaction format. Please revert to an older version of Coba to read it.")
